@@ -359,13 +359,17 @@ def resolve_global(modname, name):
     return ('missing', name)
 
 
+# re-implementations of a standard module that the external contracts (E-URL) treat as the standard one
+MODULE_ALIASES = {'future.backports.urllib.parse': 'urllib.parse', 'future.moves.urllib.parse': 'urllib.parse'}
+
+
 def classify(v):
     if isinstance(v, pytypes.ModuleType):
         return ('module', v.__name__)
     if isinstance(v, type):
         return ('class', cls_qual(v))
     if isinstance(v, pytypes.FunctionType):
-        return ('func', '%s:%s' % (v.__module__, v.__qualname__))
+        return ('func', '%s:%s' % (MODULE_ALIASES.get(v.__module__, v.__module__), v.__qualname__))
     if isinstance(v, (pytypes.BuiltinFunctionType, pytypes.MethodType, pytypes.MethodDescriptorType)):
         mod = getattr(v, '__module__', None) or 'builtins'
         slf = getattr(v, '__self__', None)
